@@ -635,6 +635,7 @@ int main(int argc, char** argv) {
     uint64_t crashViolations = 0, knownCrashHits = 0;
     std::set<std::string> seenCrashSig;
     for (auto& c : R.crashes) {
+        if (crashViolations >= 5) break;   // five are reported; every further crash costs replays in fresh processes
         std::string cls = sim::classifyCrash(c.status, c.stderrTail);
         if (cls.empty()) cls = "worker_died";
         Plan p = generatePlan(opt.seed, c.run, opt.property, allowDtorErr, g_allowQcycle);
@@ -672,7 +673,7 @@ int main(int argc, char** argv) {
             if (cls2.empty()) continue;
             cls = cls2;
             bool alreadyKnown = kf.match(opt.property, signatureFor(cand, cls)) != nullptr && seenCrashSig.count(signatureFor(cand, cls));
-            Plan minimal = alreadyKnown ? cand : shrinkCrash(opt, cand, cls, 40);
+            Plan minimal = alreadyKnown ? cand : shrinkCrash(opt, cand, cls, cls == "timer_thread_blocked_forever" ? 6 : 40);   // a blocked run costs the watchdog's patience each time
             std::string sig = signatureFor(minimal, cls);
             f.set("plan", planToJson(minimal));
             f.set("violation", Json::object().set("class", cls).set("signature", sig).set("detail", r.err.substr(0, 3000)));
